@@ -684,6 +684,8 @@ impl<'i, I: Interner> DisplayUnsat<'i, I> {
         let graph = &self.graph.graph;
         let installable_nodes = &self.installable_set;
         let mut reported: HashSet<SolvableOrRootId> = HashSet::new();
+        // Candidates whose requirements have already been expanded somewhere in the tree.
+        let mut expanded: HashSet<NodeIndex> = HashSet::new();
 
         // Note: we are only interested in requires edges here
         let indenter = Indenter::new(top_level_indent);
@@ -904,7 +906,11 @@ impl<'i, I: Interner> DisplayUnsat<'i, I> {
                     });
                     let is_leaf = graph.edges(candidate).next().is_none();
 
-                    if path.contains(&candidate) {
+                    let would_expand = excluded.is_none()
+                        && !is_leaf
+                        && !already_installed
+                        && !constrains_conflict;
+                    if path.contains(&candidate) || (would_expand && !expanded.insert(candidate)) {
                         // The candidate (transitively) depends on itself, it has already
                         // been expanded further up in the tree.
                         writeln!(
